@@ -92,6 +92,7 @@ LayoutIsBijection(n, s) ==
   /\ {MatVoxelAt(n, s, p) : p \in AllIdx(CartShape(n, s))} = AllIdx(s)
   /\ \A p, q \in AllIdx(CartShape(n, s)) : MatVoxelAt(n, s, p) = MatVoxelAt(n, s, q) => p = q
 
+AllFailing(cl) == {cl[i][1] : i \in {j \in DOMAIN cl : ~cl[j][2]}}
 FirstFailing(cl) == IF \A i \in DOMAIN cl : cl[i][2] THEN "ok"
                     ELSE cl[CHOOSE i \in DOMAIN cl : ~cl[i][2] /\ \A j \in 1..i-1 : cl[j][2]][1]
 =============================================================================
